@@ -105,7 +105,9 @@ def gen_station(rng):
             obs.append(ob)
     net = {"attrs": {"axes-xy": "ne", "angles": "left-handed"}, "params": {"sigma-apr": 10.0, "tol-abs": 1000.0},
            "description": "free station", "points": pts + [sp], "clusters": [{"kind": "obs", "from": "S", "obs": obs}]}
-    return net, truth, {"dim": 3, "approx": "omitted" if mode != "exact" else "exact", "terrain": terrain, "mode": mode, "station": True}
+    # a free station over fixed targets with direction + slope distance + zenith angle to each is resolved by the documented
+    # strategy whatever is omitted (the unchanged tree always does): losing the station is a violation, not an excuse
+    return net, truth, {"dim": 3, "approx": "omitted" if mode != "exact" else "exact", "terrain": terrain, "mode": mode, "station": True, "must_resolve": True}
 
 
 def gen_polar(rng):
@@ -237,7 +239,7 @@ def run(ctx):
             if missing and meta["approx"] != "omitted":
                 dd.append("points %s dropped although approximate coordinates were given" % missing)
             if missing and meta.get("must_resolve"):
-                dd.append("points %s dropped although the polar method resolves them (known, oriented station; direction + slope distance + zenith angle)" % missing)
+                dd.append("points / coordinates %s dropped although the documented strategy resolves them (%s)" % (missing, "free station over fixed targets" if meta.get("station") else "polar method: known, oriented station; direction + slope distance + zenith angle"))
             if missing and meta["approx"] == "omitted" and not dd:
                 ctx.skipped("omitted_not_resolved", {"gkf": txt})
                 break
